@@ -13,7 +13,7 @@ ASSUME CoordCorners  == /\ TileToWorld3(32, 32) = <<0, 0>>
 
 Tiles2 == (0..(GridN - 1)) \X (0..(GridN - 1))
 TileSets == {{}, {<<0,0>>}, {<<1,0>>}, {<<0,1>>}, {<<1,0>>, <<0,1>>}, {<<0,0>>, <<1,1>>}, {<<1,0>>, <<1,1>>, <<0,1>>}, Tiles2}
-FlagSets == {{}, {1}, {2}, {1, 4}, {64}, {128}, {1, 64}, {512}, {1, 512}, {2, 64, 128}, {16, 512}, {1, 2, 16}}
+FlagSets == {{}, {1}, {2}, {1, 4}, {64}, {128}, {1, 64}, {512}, {1, 512}, {2, 64, 128}, {16, 512}, {1, 2, 16}, {64, 128}, {1, 32768}, {8, 64}}
 NameLists == {<<>>, <<5>>, <<3, 9>>}
 WdtDefs == {[ver |-> v, flags |-> f, hasMwmo |-> hm, names |-> IF hm THEN nm ELSE <<>>,
              hasModf |-> hd, nModf |-> IF hd THEN nd ELSE 0, hasMaid |-> ha, nSec |-> IF ha THEN ns ELSE 0, tiles |-> ts] :
